@@ -1063,6 +1063,15 @@ func (ev *evaluator) call(x *ECall) Val {
 	case "sameArray":
 		a, b := ev.eval(x.Args[0]), ev.eval(x.Args[1])
 		return Val{t: mkAnd(mkEq(c.slRef(a.t), c.slRef(b.t)), mkEq(c.slOff(a.t), c.slOff(b.t))), typ: types.Typ[types.Bool]}
+	case "has":
+		// has(m, k): key k is present in map m
+		mv := ev.eval(x.Args[0])
+		mt, ok := mv.typ.Underlying().(*types.Map)
+		if !ok {
+			ev.fail("has needs a map")
+		}
+		kv := ev.typed(ev.eval(x.Args[1]), mt.Key())
+		return Val{t: ev.x.mapHasVal(ev.st, Val{t: ev.term(mv), typ: mv.typ}, kv), typ: types.Typ[types.Bool]}
 	case "sprintf":
 		// sprintf(format, a, b, ...): the string fmt.Sprintf(format, a, b, ...) as an uninterpreted function
 		// of the format and the argument values (the same term the executor builds at the call)
